@@ -11,10 +11,11 @@ const (
 	cDisjoint          // unrelated calls
 	cSharedRO          // one parsed result shared read-only by all tasks
 	cSameFamily        // texts derived from one source (same length / same prefix), same paths
+	cRareSite          // calls that all execute one rarely executed yield site of the library
 	nContention
 )
 
-var contentionNames = []string{"same-call", "same-path", "same-text", "disjoint", "shared-read-only", "same-family"}
+var contentionNames = []string{"same-call", "same-path", "same-text", "disjoint", "shared-read-only", "same-family", "rare-site"}
 
 type planInfo struct {
 	Contention int
@@ -95,6 +96,11 @@ func genPlan(r *rng, refs *refTable) (*Plan, planInfo) {
 	case cSameText:
 		k := pickOp()
 		cand = pool.byInput[k.Input]
+	case cRareSite:
+		if refs != nil && len(refs.rareSites) > 0 {
+			site := refs.rareSites[r.intn(len(refs.rareSites))]
+			cand = refs.siteList[site]
+		}
 	case cSameFamily:
 		// a family with at least two members if one can be found quickly
 		for tries := 0; tries < 30; tries++ {
@@ -163,6 +169,47 @@ func genPlan(r *rng, refs *refTable) (*Plan, planInfo) {
 			tp.Ops = append(tp.Ops, op)
 		}
 		p.Tasks = append(p.Tasks, tp)
+	}
+
+	// bound the cost of one run (a plan of large inputs only would take a minute): drop the
+	// most expensive operations until the expected solo yields fit the budget
+	if refs != nil {
+		budget := int64(300_000)
+		if r.chance(1, 25) {
+			budget = 2_000_000 // the occasional heavy run
+		}
+		cost := func(op OpPlan) int64 {
+			n, _ := refs.steps(op.Key)
+			if op.Twice {
+				n *= 2
+			}
+			return n
+		}
+		var total int64
+		for _, t := range p.Tasks {
+			for _, op := range t.Ops {
+				total += cost(op)
+			}
+		}
+		for total > budget {
+			bt, bo, bc := -1, -1, int64(0)
+			for ti, t := range p.Tasks {
+				for oi, op := range t.Ops {
+					if c := cost(op); c > bc && (len(t.Ops) > 1 || len(p.Tasks) > 2) {
+						bt, bo, bc = ti, oi, c
+					}
+				}
+			}
+			if bt < 0 {
+				break
+			}
+			ops := p.Tasks[bt].Ops
+			p.Tasks[bt].Ops = append(ops[:bo:bo], ops[bo+1:]...)
+			if len(p.Tasks[bt].Ops) == 0 {
+				p.Tasks = append(p.Tasks[:bt:bt], p.Tasks[bt+1:]...)
+			}
+			total -= bc
+		}
 	}
 
 	// scheduler strategy and faults
